@@ -16,11 +16,12 @@ prop("C12", pkg="c12",
                "struct types and values, both directions",
      level_text="Exploration by differential testing: about 0.7 M oracle evaluations per quick run over 40 000 generated message types compare the package with "
                 "protobuf-go in both directions; a disagreement in any generated (type, value, legal re-encoding) is reported with a replayable case. Held = no "
-                "disagreement outside the classes listed in known_findings.json (8 genuine defects found by this check are listed there and excluded narrowly).",
+                "disagreement outside the classes listed in known_findings.json: of the 8 genuine defects this check found, 7 are repaired in /repo (status fixed; their "
+                "witnesses run as regression cases and their shapes are generated again) and 1 (non-nil empty map written as an empty entry) is still known and excluded narrowly.",
      level_note="Trusted base: protobuf-go v1.26.0 as the definition of the wire format and of 'decodes to the same values', plus harness/pschema (schema -> Go type / "
                 "descriptor / value conversions, self-checked by pschema tests). Not covered: recursive message types, pointers to scalars, [N]byte, custom "
-                "Message implementers, packed encodings, groups, sfixed32/64; repeated fields above 10 elements in the decode direction and field numbers above "
-                "65535 only through the known-finding witnesses until those defects are repaired.",
+                "Message implementers, packed encodings, groups, sfixed32/64. Shapes of a class are avoided only while that class has status known "
+                "(currently none of the avoid-by-construction classes is active).",
      assumptions=["protobuf-go v1.26.0 decodes/encodes the standard wire format correctly (reference)",
                   "a nil *struct field and a pointer to an all-zero struct are treated as equal (nil == empty); presence of empty sub-messages is C03's subject",
                   "float32 NaN payloads are generated with the quiet bit set (the reference stores float32 as float64, which quiets signalling NaNs)",
